@@ -15,10 +15,12 @@ def tweak(world, rng):
     uid = world["uid"]
     v = rng.choice(world["mounts"])
     t = v + b"/.Trash"
-    how = rng.choice(["nonsticky", "link-sticky", "link-nonsticky"])
+    how = rng.choice(["nonsticky", "link-sticky", "link-nonsticky"] + (["link-other-volume"] if len(world["mounts"]) > 1 else []))
     for q in [q for q in nodes if q == t or q.startswith(t + b"/")]:
         del nodes[q]
     mt = 1000000400
+    if how == "link-other-volume":
+        return other_volume(world, rng, nodes, v, mt)
 
     def d(path, mode=0o755):
         nodes[path] = {"p": path, "k": "d", "mode": mode, "mtime": mt}
@@ -66,6 +68,42 @@ def tweak(world, rng):
     return world
 
 
+def other_volume(world, rng, nodes, v, mt):
+    """$topdir/.Trash of volume v is a symbolic link to the genuine, sticky .Trash of ANOTHER volume: each volume's .Trash
+    is judged on its own (a link is refused, wherever it leads); the entries behind it belong to the other volume only"""
+    from ..model import cmd_argv
+    uid = world["uid"]
+    a = rng.choice([m for m in world["mounts"] if m != v])
+    ta = a.rstrip(b"/") + b"/.Trash"
+    for q in [q for q in nodes if q == ta or q.startswith(ta + b"/")]:
+        del nodes[q]
+    for m in (a, v):
+        if m not in nodes:
+            nodes[m] = {"p": m, "k": "d", "mode": 0o755, "mtime": mt}
+    nodes[ta] = {"p": ta, "k": "d", "mode": 0o1777, "mtime": mt}
+    u = ta + b"/%d" % uid
+    for q, mode in ((u, 0o700), (u + b"/files", 0o700), (u + b"/info", 0o700)):
+        nodes[q] = {"p": q, "k": "d", "mode": mode, "mtime": mt}
+    nodes[u + b"/info/c08shared.trashinfo"] = {"p": u + b"/info/c08shared.trashinfo", "k": "f", "mode": 0o600, "mtime": mt,
+                                               "data": b"[Trash Info]\nPath=stuff/c08shared\nDeletionDate=2001-02-03T04:05:06\n"}
+    nodes[u + b"/files/c08shared"] = {"p": u + b"/files/c08shared", "k": "f", "mode": 0o644, "mtime": mt, "data": b"belongs to the other volume"}
+    t = v.rstrip(b"/") + b"/.Trash"
+    nodes[t] = {"p": t, "k": "l", "target": rng.choice([ta, ta + b"/"])}
+    world["nodes"] = sorted(nodes.values(), key=lambda n: n["p"])
+    meta = world["meta"]
+    meta["entries"] = [e for e in meta["entries"] if e["tdir"] + b"/info/" + e["name"] + b".trashinfo" in nodes]
+    meta["entries"].append({"tdir": u, "name": b"c08shared", "loc": a.rstrip(b"/") + b"/stuff/c08shared", "rec": b"stuff/c08shared",
+                            "date": "2001-02-03T04:05:06", "base": a})
+    meta["tdirs"] = [x for x in meta["tdirs"] if x[0] != u] + [(u, a)]
+    if world["cmd"] == "restore":
+        world["opts"]["path"] = b"/"
+        world["opts"].pop("trashDir", None)
+    elif world["cmd"] == "empty":
+        world["opts"].pop("userDirs", None)
+    world["argv"] = cmd_argv(world)
+    return world
+
+
 PUT_CFG = {"oracles": ("C08", "C07"), "violations": ("C08",), "profile": "single", "states": False}
 READ_CFG = {"cmds": ["list", "restore", "empty", "rm"], "oracles": ("C08", "c08", "effects"), "violations": ("C08",),
             "profile": "mixed", "states": False, "tweak": tweak}
@@ -73,7 +111,7 @@ LEVEL_NOTE = ("theorems: trash-put's security check rejects $topdir/.Trash/$uid 
               "not a directory or not sticky; the scanner of list/empty/rm and trash-restore never yield it then; "
               "trash-list reports the skipped directory")
 RULE = ("seeded worlds where $topdir/.Trash is absent / sticky dir / non-sticky dir / symlink to sticky or non-sticky dir / "
-        "regular file, with a populated .Trash/$uid behind it, for all five commands; oracle: the subtree of an insecure "
+        "regular file / a symlink to the genuine sticky .Trash of ANOTHER volume, with a populated .Trash/$uid behind it, for all five commands; oracle: the subtree of an insecure "
         ".Trash/$uid is byte-for-byte unchanged and none of its entries' paths is printed")
 
 
